@@ -47,7 +47,7 @@ REQUIRED_COUNTERS = [
 REQUIRED_MONITORS = ['rotation_matrix', 'enu2xyz', 'xyz2enu', 'vcv_cart2local', 'vcv_local2cart', 'error_ellipse',
                      'relative_error', 'k_val95']
 
-N = {'quick': 6000, 'thorough': 50000}
+N = {'quick': 6000, 'thorough': 30000}
 SHARDS = {'quick': 15, 'thorough': 47}        # + one finite shard each
 
 TOL_ROT = 1e-14
